@@ -55,6 +55,36 @@ def session_bytes(rng, kind):
     return b"".join(msgs)
 
 
+def huge_session():
+    """formatting a 2.3 MiB document: the server has to emit a frame larger than any single write it is likely to get through"""
+    uri = "file:///c19/huge.spl"
+    unit = "proc p%d(a: int, ref b: int) {\n  var c: int; // ü€ %d\n  c := a * %d + b;\n  if (c < a) { b := c; } else { b := a; }\n}\n"
+    text = "".join(unit % (i, i, i) for i in range(21000)) + "proc main() {}\n"
+    msgs = [{"jsonrpc": "2.0", "id": 1, "method": "initialize", "params": {"capabilities": {}}}, {"jsonrpc": "2.0", "method": "initialized", "params": {}},
+            {"jsonrpc": "2.0", "method": "textDocument/didOpen", "params": {"textDocument": {"uri": uri, "languageId": "spl", "version": 0, "text": text}}},
+            {"jsonrpc": "2.0", "id": 2, "method": "textDocument/formatting", "params": {"textDocument": {"uri": uri}, "options": {"tabSize": 8, "insertSpaces": True}}},
+            {"jsonrpc": "2.0", "id": 3, "method": "textDocument/hover", "params": {"textDocument": {"uri": uri}, "position": {"line": 0, "character": 6}}},
+            {"jsonrpc": "2.0", "id": 4, "method": "shutdown"}, {"jsonrpc": "2.0", "method": "exit"}]
+    return b"".join(framed(json.dumps(m, ensure_ascii=False, separators=(",", ":")).encode()) for m in msgs), len(text.encode())
+
+
+def check_huge(ctx, binpath):
+    data, n = huge_session()
+    part = Part()
+    ref = run_segments(binpath, [data], handshake=False)
+    part.ev()
+    sc = {"kind": "huge", "session": "huge"}
+    if ref[2]: part.fail("session with a %.1f MiB document: the server emitted a malformed frame: %s" % (n / 2 ** 20, ref[2]), sc)
+    elif ref[0] != ("exit", 0) or sorted(ref[1]["responses"]) != ["1", "2", "3", "4"]: part.fail("session with a %.1f MiB document: exit %r, responses %r" % (n / 2 ** 20, ref[0], sorted(ref[1]["responses"])), sc)
+    else:
+        big = len(json.dumps(ref[1]["responses"]["2"]))
+        cuts = [len(data) // 3, 2 * len(data) // 3]
+        got = run_segments(binpath, [data[:cuts[0]], data[cuts[0]:cuts[1]], data[cuts[1]:]]); part.ev()
+        if compare(part, ref, got, "huge session in 3 segments", sc): part.see(("huge", big > 2 ** 21))
+        ctx.extra["largest_outgoing_frame_bytes"] = big
+    ctx.merge(part)
+
+
 def run_segments(binpath, segments, handshake=True):
     """-> (exit status, projection of the output, torn/frame error or None, number of frames)"""
     r = Run(binpath)
@@ -157,6 +187,7 @@ def run(ctx):
     jobs = []
     for kind in ("ascii", "unicode", "sizes"): jobs += [(kind, i, 5, "k-way", ctx.seed, 8 if ctx.quick else 150) for i in range(5)]
     for p in pmap(worker, jobs): ctx.merge(p)
+    check_huge(ctx, binpath)
     strace_sample(ctx, binpath)
     c = ctx.extra.get("counters", {})
     ctx.exhaustive = None
@@ -171,6 +202,8 @@ def run(ctx):
 
 def replay(ctx, sc):
     part = Part(); binpath = server_bin("rel")
+    if sc["session"] == "huge":
+        check_huge(ctx, binpath); ctx.see(1); ctx.see(2); return
     data = session_bytes(random.Random("C19/session/%s" % sc["session"]), sc["session"])
     ref = run_segments(binpath, [data], handshake=False)
     cuts = sc.get("cuts") or list(range(1, len(data)))
